@@ -10,6 +10,7 @@ import (
 	"fmt"
 	"go/ast"
 	"go/token"
+	"regexp"
 	"strings"
 
 	"golang.org/x/tools/go/ssa"
@@ -246,3 +247,75 @@ func (f *Frame) bindNamesBefore(env *SpecEnv, header *ssa.BasicBlock) {
 
 // ghost location counting the writes to a package-level map ("pkg.Name")
 func mapWritesLoc(g string) string { return "G:$mapwrites:" + g }
+
+// ---- ghost "was called" flags -------------------------------------------------------------
+// called(Name) in a postcondition is true when the function has executed a direct call of a callee
+// matching Name (same matching as callsite targets) since entry.  The flag lives in a ghost
+// location that loops containing such a call havoc, so "true after the loop" holds only when
+// every way out of the loop passes a call - which is the case for `for { t := p.Read(); if t ==
+// nil { break } ... }`.
+
+var calledRe = regexp.MustCompile(`called\(([A-Za-z0-9_.*/()$]+)\)`)
+
+func calledLoc(name string) string { return "G:$called:" + name }
+
+// names mentioned as called(..) in the contract's clauses
+func (ct *Contract) trackedCalls() []string {
+	if ct == nil {
+		return nil
+	}
+	if ct.tracked != nil {
+		return ct.tracked
+	}
+	seen := map[string]bool{}
+	ct.tracked = []string{}
+	scan := func(t string) {
+		for _, m := range calledRe.FindAllStringSubmatch(t, -1) {
+			if !seen[m[1]] {
+				seen[m[1]] = true
+				ct.tracked = append(ct.tracked, m[1])
+			}
+		}
+	}
+	for _, c := range ct.Ensures {
+		scan(c.Text)
+	}
+	for _, cs := range ct.LoopInv {
+		for _, c := range cs {
+			scan(c.Text)
+		}
+	}
+	return ct.tracked
+}
+
+func (f *Frame) noteCalled(c *ssa.CallCommon) {
+	vc := f.vc
+	if !f.top || vc.contract == nil || vc.pure > 0 {
+		return
+	}
+	name := calleeName(c)
+	for _, t := range vc.contract.trackedCalls() {
+		if siteTargetMatches(name, t) {
+			vc.he.set(f.cur, calledLoc(t), "Bool", "true")
+		}
+	}
+}
+
+// ghost locations a loop body may set (added to the loop's mod-set)
+func (vc *VC) calledLocsIn(li *loopInfo) []string {
+	var out []string
+	for _, t := range vc.contract.trackedCalls() {
+		hit := false
+		for b := range li.body {
+			for _, ins := range b.Instrs {
+				if ci, ok := ins.(ssa.CallInstruction); ok && siteTargetMatches(calleeName(ci.Common()), t) {
+					hit = true
+				}
+			}
+		}
+		if hit {
+			out = append(out, calledLoc(t))
+		}
+	}
+	return out
+}
